@@ -1,5 +1,5 @@
 """Registry: property id -> engine, budgets, manifest texts."""
-from . import e3_entry, e6_order
+from . import e1_solver, e3_entry, e6_order
 
 
 def _budget(batches, examples, wall_s):
@@ -66,6 +66,53 @@ PROPS = {
     },
 }
 
+_E1 = {
+    "C01": ("General DTL optimum and exhaustive enumerator",
+            "seeded histories of thl/exh solves and interleaved, cancellable generate_all "
+            "enumerations on shared input objects under simulator-chosen set orders, against a "
+            "brute-force DTL reference"),
+    "C02": ("Ordered super-reconciliation optimum",
+            "seeded solve histories of ext_spfs/base_spfs under simulator-chosen orders (root "
+            "orders come from toposort_all over sets) against a brute-force ordered-labelling "
+            "reference"),
+    "C03": ("SuperDTL optimum",
+            "seeded solve histories of superdtl/base_uspfs (decoders are generators sharing sets) "
+            "against a brute-force reference over all valid family-set labellings"),
+    "C04": ("Structural validity of every returned solution",
+            "seeded solve histories of all seven algorithms, both policies, binary and "
+            "multifurcating inputs, arbitrary costs; structural validity predicates of the "
+            "reference model on every returned object"),
+    "C05": ("ALL is the optimal set, ANY one member",
+            "several ALL and ANY solves of one input object under different simulator-chosen "
+            "iteration orders, compared with the brute-force optimal set and with each other"),
+    "C08": ("Polytomy resolution",
+            "lazy binarize() producers stepped in drawn interleavings with cancellation faults, "
+            "and extended solvers on multifurcating inputs against the optimum over an "
+            "independent refinement generator"),
+    "C09": ("Presentation independence, determinism, cost monotonicity",
+            "metamorphic and repeated solves inside one history under different simulator-chosen "
+            "iteration orders; fresh-process sweep of the uninstrumented package under real hash "
+            "seeds"),
+    "C10": ("Cross-algorithm agreement",
+            "all seven algorithms executed in a drawn order on one shared input object; relations "
+            "between independently recounted optima"),
+}
+for _pid, (_title, _tech) in _E1.items():
+    PROPS[_pid] = {
+        "id": _pid,
+        "engine": e1_solver,
+        "quick": _budget(32, 30, 75),
+        "thorough": _budget(400, 60, 900),
+        "technique": "deterministic simulation: " + _tech,
+        "level_text": _title + ": seeded search over inputs, operation histories, set iteration "
+                      "orders, generator interleavings and cancellation faults; each operation is "
+                      "compared with an executable reference model and with the rest of the "
+                      "history. Exploration (sampling with shrinking replay files) is the honest "
+                      "level for a for-all over inputs and schedules.",
+        "design_ref": f"DESIGN.md section 6 ({_pid}), section 5 (E1/E2)",
+        "level_note": _LEVEL_NOTE,
+    }
+
 NOT_APPLICABLE = {
     "C06": "pure function of a frozen value (node_event/_cost_rec/labeling cost): no schedule, order, "
            "stream, clock or history can affect it, so deterministic simulation has nothing to "
@@ -90,6 +137,10 @@ PENDING = {
 }
 
 ENGINES = [
+    {"name": "E1-solver-history", "path": "sim/e1_solver.py",
+     "serves_properties": ["C01", "C02", "C03", "C04", "C05", "C08", "C09", "C10"],
+     "kind_free_text": "operation histories on shared solver inputs incl. lazy producers (E2), "
+                       "brute-force reference models in sim/ref.py"},
     {"name": "E3-dp-entry", "path": "sim/e3_entry.py", "serves_properties": ["C16"],
      "kind_free_text": "history machine over Entry/Table cells with list-of-offers oracle"},
     {"name": "E6-order-util", "path": "sim/e6_order.py", "serves_properties": ["C19", "C20"],
